@@ -31,7 +31,7 @@ Each patch should touch 5-40 lines and at least three of the five should restruc
 For each patch i write into /tmp/wt-out/{wid}/ :
   - patch<i>.diff : output of `git -C /tmp/wt/{wid} diff` for that change alone (apply-able with `git apply` on a clean tree; clean the tree with `git checkout -- .` between patches),
   - notes<i>.md : 3-6 lines: which function(s) it touches, what kind of refactoring it is, and how you verified that behaviour is unchanged.
-Verify each patch: the package still imports, and the upstream unit tests of the touched area still pass exactly as on the clean tree (the repository contains its test-suite under tests/; pick the relevant test files, e.g. `/venv/bin/python -m pytest tests/<area>/test_<x>.py -q -p no:cacheprovider -x -n 4`; tests needing missing optional packages such as catalyst/jax fail on the clean tree too - compare against the clean tree). Also write a tiny script or one-liner exercising the touched function and compare its output before/after.
+Verify each patch: the package still imports, and the upstream unit tests of the touched area still pass exactly as on the clean tree (the repository contains its test-suite under tests/; pick the relevant test files, e.g. `/venv/bin/python -m pytest tests/<area>/test_<x>.py -q -p no:cacheprovider -x -p no:xdist` (do NOT use -n: the machine is shared); tests needing missing optional packages such as catalyst/jax fail on the clean tree too - compare against the clean tree). Also write a tiny script or one-liner exercising the touched function and compare its output before/after.
 Leave the worktree CLEAN (git checkout -- .) when you finish and kill any helper processes you started.
 
 Keep your final answer short: one line per patch (file/function, kind of refactoring, verified yes/no).""")
